@@ -53,9 +53,15 @@ def gen_table(R, max_rows=160, ncols=None, params="random", rows=None):
         st, v = gen_column(R, n); cols.append(v); styles.append(st)
     names = R.sample(["c0", "b", "a b", "zeta", "é", "col3", "x1", "10"], ncols)
     # entity ids
-    pid_mode = R.choice(["unique", "unique", "one", "one", "two", "strings"])
+    pid_mode = R.choice(["unique", "unique", "one", "one", "two", "strings", "skewed"])
     if pid_mode == "unique":
         pids = None
+    elif pid_mode == "skewed":
+        # two id columns of very different granularity: (nearly) one entity per row in the first, a handful of entities in the second, either order
+        fine = [R.randint(1, max(1, n)) if R.random() < 0.1 else i + 1 for i in range(n)]
+        k = R.choice([1, 2, 3, 4, 6])
+        coarse = [R.randint(1, k) for _ in range(n)]
+        pids = [fine, coarse] if R.random() < 0.5 else [coarse, fine]
     else:
         npc = 2 if pid_mode == "two" else 1
         pids = []
